@@ -1,28 +1,39 @@
 // C18: distance-vector routing converges to shortest paths on every topology / schedule / fault
 // sequence. Explicit-state search over event histories executed on N real dv.Router objects
-// (harness ndn.Engine, harness task queue for every `go` statement, virtual clock), followed by an
-// exact analysis of the explored state graph (terminal states, strongly connected components,
-// fairness) in the parent process.
+// (harness ndn.Engine, harness task queue for every `go` statement, virtual clock; package
+// harness/dvsim), followed by an exact analysis of the explored state graph (terminal states,
+// strongly connected components, weak fairness, longest path) in the parent process.
 //
-// Configurations (one per topology):
+// Configurations (one per topology and family):
 //
-//	sched <graph>  from the cold start (every router knows only itself); default events
-//	               X(i<j) "router i hears j's current sync Interest, fetches j's current
-//	               advertisement and processes it" (all spawned work run to quiescence, FIFO) and
-//	               Dl(i<j#k) delivery of a parked fetch; deviations Pg(i<j) (sync Interest only: the
-//	               fetch stays parked while other events happen) and To(i#k) (a parked fetch times
-//	               out and is retried by the real retry loop).
-//	fault <graph>  default events X(i<j) and Dc(i) (more than RouterDeadInterval passes at i while
-//	               its live neighbours keep sending heartbeats; checkDeadNeighbors); deviations
-//	               LD/LU(i,j) link down/up, RD/RU(r) router stop/restart.
+//	sched <graph>       from the cold start (every router knows only itself). Default events:
+//	                    X(i<j) "router i hears j's current sync Interest, fetches j's current
+//	                    advertisement and processes it" (all spawned work run to quiescence, FIFO),
+//	                    Dl(i<j#k) delivery of a parked fetch. Deviations: Pg(i<j) (sync Interest
+//	                    only: the fetch stays parked while other events happen), To(i#k) (a parked
+//	                    fetch times out and is retried by the real retry loop).
+//	sched <graph> d=N   the same, depth-bounded: every order of the first N events, then the default
+//	                    fair schedule (round-robin exchanges) from every state of the last level to
+//	                    the fixed point, which must be THE fixed point (graphs whose full state
+//	                    space does not fit the tier).
+//	fault <graph>       from the fixed point of the intact topology. Default events X(i<j) and
+//	                    Dc(i) (more than RouterDeadInterval passes at i while its live neighbours
+//	                    keep sending heartbeats, then checkDeadNeighbors). Deviations, injected in
+//	                    fixed points: LD/LU(i,j) link down/up, RD/RU(r) router stop/restart.
+//	faultany <graph>    (thorough) as fault, from the cold start, faults injected in every state.
+//
+// Clauses: C18.adv (every transition: no advertisement entry, on the wire or in Rib.Advert(), with
+// Cost >= 16), C18.dist / C18.withdraw (every fixed point: costs = BFS hop distances of the live
+// topology, next hop one hop closer, unreachable destinations absent from RIB and advertisement),
+// C18.fix (graph: every terminal state is a fixed point; no event-closed set of states without a
+// fixed point; no weakly fair cycle; longest path reported), C18.unique (graph: one best-route
+// table per live topology; the same history always gives the same state).
 package main
 
 import (
 	"fmt"
 	"os"
-	"path/filepath"
 	"runtime/debug"
-	"sort"
 	"strings"
 	"time"
 
@@ -43,6 +54,11 @@ type sys struct {
 	opsCache       map[string][]explore.Op
 	fromCache      map[string]string
 	rooted         bool
+	// closureDepth > 0: the search is depth-bounded; every state first reached at that depth is
+	// driven to the fixed point by the default fair schedule (round-robin exchanges) and checked
+	closureDepth int
+	closed       map[string]bool
+	expect       string // best tables of the fixed point reached by round-robin from the cold start
 }
 
 func (y *sys) New() any {
@@ -62,7 +78,16 @@ func (y *sys) Ops(i any) []explore.Op {
 	}
 	ops := y.ops(l.Sim())
 	l.Checkpoint()
-	if len(y.opsCache) > 200000 {
+	hasDefault := false
+	for _, o := range ops {
+		if !o.Dev {
+			hasDefault = true
+		}
+	}
+	if !hasDefault {
+		y.trace.NoOps(y.Canon(i))
+	}
+	if len(y.opsCache) > 50000 {
 		y.opsCache = map[string][]explore.Op{}
 	}
 	y.opsCache[key] = ops
@@ -72,9 +97,12 @@ func (y *sys) Ops(i any) []explore.Op {
 func (y *sys) ops(s *dvsim.Sim) []explore.Op {
 	var ops []explore.Op
 	n := s.G.N
+	sn := s.Snap()
 	for a := 0; a < n; a++ {
 		for b := 0; b < n; b++ {
-			if a != b && s.LinkLive(a, b) {
+			// an exchange in which a already holds b's current advertisement maps the state to
+			// the same canonical state: not generated (it is a self-loop by construction)
+			if a != b && s.LinkLive(a, b) && !sn.Fresh(a, b) {
 				ops = append(ops, explore.Op{Name: fmt.Sprintf("X(%d<%d)", a, b)})
 			}
 		}
@@ -90,7 +118,7 @@ func (y *sys) ops(s *dvsim.Sim) []explore.Op {
 		}
 		for a := 0; a < n; a++ {
 			for b := 0; b < n; b++ {
-				if a != b && s.LinkLive(a, b) {
+				if a != b && s.LinkLive(a, b) && !sn.Fresh(a, b) {
 					ops = append(ops, explore.Op{Name: fmt.Sprintf("Pg(%d<%d)", a, b), Dev: true})
 				}
 			}
@@ -108,7 +136,7 @@ func (y *sys) ops(s *dvsim.Sim) []explore.Op {
 		}
 	}
 	if !y.faultsAnywhere {
-		if q, _ := s.RoutingQuiescent(); !q {
+		if q, _ := sn.RoutingQuiescent(); !q {
 			return ops
 		}
 	}
@@ -204,6 +232,10 @@ func (y *sys) Apply(i any, op explore.Op) []report.Violation {
 			v = append(v, report.Violation{Clause: "C18.adv", Key: "advertisement lists a destination at or above infinity", Detail: a})
 		}
 	}
+	for _, nd := range y.m.Nondet {
+		v = append(v, report.Violation{Clause: "C18.unique", Key: "the same event history yields different tables when re-executed (map-iteration order)", Detail: nd})
+	}
+	y.m.Nondet = nil
 	sn := s.Snap()
 	q, _ := sn.RoutingQuiescent()
 	fs := sn.CheckShortest()
@@ -215,8 +247,70 @@ func (y *sys) Apply(i any, op explore.Op) []report.Violation {
 			}
 		}
 	}
-	l.Canon = y.trace.Edge(from, s, sn, op.Name, op.Dev, q, fs)
+	l.Canon = y.trace.Edge(from, key, s, sn, op.Name, op.Dev, q, fs)
 	return v
+}
+
+// CheckState is the closure of depth-bounded configurations (see closureDepth).
+func (y *sys) CheckState(i any) []report.Violation {
+	l := i.(*dvsim.Lazy)
+	if y.closureDepth == 0 || len(l.Hist) != y.closureDepth {
+		return nil
+	}
+	h := y.trace.Hash(y.Canon(i))
+	if y.closed[h] {
+		return nil
+	}
+	y.closed[h] = true
+	if y.expect == "" {
+		ref := dvsim.NewSim(y.g)
+		converge(ref)
+		y.expect = ref.Snap().BestTables()
+		l.Invalidate() // NewSim reset the global clock and task queue
+	}
+	s := l.Sim()
+	defer l.Invalidate()
+	rounds := converge(s)
+	sn := s.Snap()
+	var v []report.Violation
+	if q, why := sn.RoutingQuiescent(); !q {
+		return []report.Violation{{Clause: "C18.fix", Key: "round-robin exchanges from an explored state do not reach a fixed point within 64 rounds", Detail: why}}
+	}
+	seen := map[string]bool{}
+	for _, f := range sn.CheckShortest() {
+		if !seen[f.Clause+f.Key] {
+			seen[f.Clause+f.Key] = true
+			v = append(v, report.Violation{Clause: f.Clause, Key: f.Key, Detail: "(after " + fmt.Sprint(rounds) + " closing rounds) " + f.Detail})
+		}
+	}
+	if got := sn.BestTables(); got != y.expect {
+		v = append(v, report.Violation{Clause: "C18.unique", Key: "different event orders end in different routing tables for the same live topology",
+			Detail: fmt.Sprintf("closing rounds end in {%s}, round-robin from the cold start ends in {%s}", got, y.expect)})
+	}
+	y.trace.Closure(h, rounds)
+	return v
+}
+
+// converge runs round-robin exchanges to the fixed point (used as the initial state of the
+// fault configurations; convergence from the cold start under EVERY order is what the sched
+// configurations establish).
+func converge(s *dvsim.Sim) int {
+	for round := 0; round < 64; round++ {
+		for a := 0; a < s.G.N; a++ {
+			for b := 0; b < s.G.N; b++ {
+				if a != b && s.LinkLive(a, b) {
+					s.Exchange(a, b)
+					s.EndOp()
+				}
+			}
+		}
+		if q, _ := s.RoutingQuiescent(); q {
+			return round + 1
+		}
+	}
+	// Not converged (a defect the sched configuration of the same topology reports): a fault
+	// configuration then has no fixed point to inject faults into and explores nothing.
+	return 64
 }
 
 func build(cfg string) explore.System {
@@ -227,7 +321,15 @@ func build(cfg string) explore.System {
 	}
 	y := &sys{cfg: cfg, g: g, faults: parts[0] != "sched", faultsAnywhere: parts[0] == "faultany"}
 	y.trace = dvsim.NewTrace("C18", cfg)
-	y.m = dvsim.NewMachine(g, nil, applyOp)
+	var init func(*dvsim.Sim)
+	for _, p := range parts[2:] {
+		fmt.Sscanf(p, "d=%d", &y.closureDepth)
+	}
+	y.closed = map[string]bool{}
+	if parts[0] == "fault" {
+		init = func(s *dvsim.Sim) { converge(s) } // fault configurations start from the fixed point of the intact topology
+	}
+	y.m = dvsim.NewMachine(g, init, applyOp)
 	y.opsCache, y.fromCache = map[string][]explore.Op{}, map[string]string{}
 	return y
 }
@@ -238,48 +340,102 @@ func configs(th bool) []explore.Config {
 		for _, n := range strings.Split(only, ";") {
 			dev := 0
 			fmt.Sscanf(os.Getenv("VERIF_C18_DEV"), "%d", &dev)
-			c = append(c, explore.Config{Name: n, MaxDepth: 400, MaxDev: dev})
+			depth := 400
+			for _, f := range strings.Fields(n) {
+				fmt.Sscanf(f, "d=%d", &depth)
+			}
+			c = append(c, explore.Config{Name: n, MaxDepth: depth, MaxDev: dev})
 		}
 		return c
 	}
-	var graphs []dvsim.Graph
-	maxN := 4
-	if th {
-		maxN = 5
+	sched := func(g string, dev, depth int) {
+		if depth > 0 {
+			c = append(c, explore.Config{Name: fmt.Sprintf("sched %s d=%d", g, depth), MaxDepth: depth, MaxDev: dev})
+		} else {
+			c = append(c, explore.Config{Name: "sched " + g, MaxDepth: 400, MaxDev: dev})
+		}
 	}
-	for n := 2; n <= maxN; n++ {
-		graphs = append(graphs, dvsim.ConnectedGraphs(n)...)
+	fault := func(g string, dev int) { c = append(c, explore.Config{Name: "fault " + g, MaxDepth: 400, MaxDev: dev}) }
+	var all []string
+	for n := 2; n <= 4; n++ {
+		for _, g := range dvsim.ConnectedGraphs(n) {
+			all = append(all, g.String())
+		}
 	}
 	if !th {
-		graphs = append(graphs, dvsim.Line(5), dvsim.Ring(5))
-	} else {
-		for _, s := range []string{
-			"n6:01-12-23-34-45-05",          // ring
-			"n6:01-12-23-34-45-05-03",       // ring + chord
-			"n6:01-02-12-23-34-35-45",       // two triangles bridged
-			"n6:03-04-05-13-14-15-23-24-25", // K3,3
-			"n6:01-12-23-34-45",             // line
-		} {
-			g, err := dvsim.ParseGraph(s)
-			if err != nil {
-				report.Fatal("%v", err)
+		// Cold start, every event order. Delivery deviations (sync Interest heard, fetch parked or
+		// timed out while other events happen) multiply the state space by about the number of
+		// directed links per deviation: used on the graphs with <= 3 links.
+		for _, g := range all {
+			if e := strings.Count(g, "-") + 1; e <= 3 {
+				sched(g, 1, 0)
 			}
-			graphs = append(graphs, g)
+		}
+		// faults from the fixed point: <= 2 fault / repair events per history
+		line5, ring5 := dvsim.Line(5).String(), dvsim.Ring(5).String()
+		for _, g := range append(append([]string{}, all...), line5, ring5) {
+			fault(g, 2)
+		}
+		sched("n4:01-02-03-12", 0, 0) // triangle with a tail
+		sched("n4:02-03-12-13", 0, 0) // 4-cycle
+		sched(line5, 0, 0)
+		// too large for the quick tier: every order of the first d events, then the default fair
+		// schedule to the fixed point
+		sched("n4:01-02-03-12-13", 0, 6)    // diamond
+		sched("n4:01-02-03-12-13-23", 0, 5) // K4
+		sched(ring5, 0, 6)
+		return c
+	}
+	for _, g := range dvsim.ConnectedGraphs(5) {
+		all = append(all, g.String())
+	}
+	six := []string{
+		"n6:01-12-23-34-45",             // line
+		"n6:01-05-12-23-34-45",          // ring
+		"n6:01-03-05-12-23-34-45",       // ring + chord
+		"n6:01-02-12-23-34-35-45",       // two triangles bridged
+		"n6:03-04-05-13-14-15-23-24-25", // K3,3
+	}
+	for _, g := range all {
+		e := strings.Count(g, "-") + 1
+		switch {
+		case e <= 3:
+			sched(g, 2, 0)
+		case e <= 4:
+			sched(g, 1, 0)
 		}
 	}
-	for _, g := range graphs {
-		dev := 1
-		if th {
-			dev = 2
-		}
-		c = append(c, explore.Config{Name: "sched " + g.String(), MaxDepth: 400, MaxDev: dev})
+	for _, g := range append(append([]string{}, all...), six...) {
+		fault(g, 3)
 	}
-	for _, g := range graphs {
-		dev := 2
-		if th {
-			dev = 3
+	// the rest: every order of the first d events from the cold start, then the default fair
+	// schedule to the fixed point (depths sized so that the last level is reached within the share
+	// of the budget; the closure only runs on the last level)
+	for _, g := range all {
+		e := strings.Count(g, "-") + 1
+		switch {
+		case e <= 4:
+		case strings.HasPrefix(g, "n4") && e == 5:
+			sched(g, 0, 8)
+		case strings.HasPrefix(g, "n4"):
+			sched(g, 0, 7)
+		case e == 5:
+			sched(g, 0, 8)
+		case e <= 7:
+			sched(g, 0, 6)
+		default:
+			sched(g, 0, 5)
 		}
-		c = append(c, explore.Config{Name: "fault " + g.String(), MaxDepth: 400, MaxDev: dev})
+	}
+	sched(six[0], 0, 0)
+	sched(six[1], 0, 7)
+	for _, g := range six[2:] {
+		sched(g, 0, 5)
+	}
+	for _, g := range all {
+		if strings.HasPrefix(g, "n3") || g == "n4:02-03-12-13" {
+			c = append(c, explore.Config{Name: "faultany " + g, MaxDepth: 400, MaxDev: 2})
+		}
 	}
 	return c
 }
@@ -292,6 +448,9 @@ func main() {
 	explore.Main(explore.Spec{
 		ID: "C18", PanicClause: "C18.panic", Build: build, Configs: configs,
 		Budget: func(th bool) time.Duration {
+			if v, err := time.ParseDuration(os.Getenv("VERIF_DV_BUDGET")); err == nil && v > 0 {
+				return v // development aid
+			}
 			if th {
 				return 25 * time.Minute
 			}
@@ -303,13 +462,12 @@ func main() {
 			"tasks spawned by one event (go statements of dv/dv and std/sync) run to quiescence in FIFO order before the next event; tasks of different routers share no state, tasks of one router hold dv.mutex for their whole body (advertDataFetch excepted: it only reads the neighbour table before expressing an Interest)",
 			"clock abstraction: IsDead is only evaluated right after a step longer than RouterDeadInterval in which exactly the live neighbours sent heartbeats (event Dc); a restarted router boots with a millisecond clock beyond every sequence number of its previous incarnation",
 			"equal canonical state (live topology, neighbour tables with sequence numbers as relations, RIB costs below infinity, parked fetches) implies equal futures",
-			"fault configurations inject the first fault in fixed points only in the quick tier (thorough: every state) and bound the number of fault/repair events per history",
+			"fault configurations start from the fixed point of the intact topology and inject faults in fixed points only (thorough adds faultany configurations: cold start, faults in every state); the number of fault/repair events per history is bounded (2 quick, 3 thorough); delivery deviations (parked / timed-out fetch) are bounded (1 quick, 2 thorough) and used on graphs with <= 3 (quick) / <= 4 (thorough) links",
+			"successor states are computed by restoring saved table contents into the live router objects and executing one operation; restores are cross-checked against plain re-execution (first 25 and every 400th per worker; a differential run with VERIF_DV_NOCACHE=1 gives identical state and transition counts)",
+			"graphs marked d=N are explored to depth N only; their remaining state space is covered by one schedule (round-robin) per frontier state",
 		},
 		Extra: func(rep *report.Reporter, cov report.Coverage) {
 			dvsim.AnalyseC18(rep, cov)
 		},
 	})
-	_ = os.Stdout
-	_ = filepath.Join
-	_ = sort.Strings
 }
